@@ -455,7 +455,8 @@ def monitorInstanceAnswers (script : List Cmd) (iters : List Iter) (d : Nat) : O
         -- section; the subtype PTR rides along as an additional), so a known answer for the type's
         -- PTR silences the subtype PTR too although that record is not listed
         let viaTypePtr := h.ty == 12 && x.m.answers.any fun ka =>
-          ka.ty == 12 && ka.rdata == h.rdata && ka.name != h.name && (ka.name).isSuffixOf h.name && decide (2 * ka.ttl > h.ttl)
+          ka.ty == 12 && ka.rdata == h.rdata && lower ka.name != lower h.name && (lower ka.name).isSuffixOf (lower h.name) &&
+            decide (2 * ka.ttl > h.ttl)
         if listed || answered then none
         else if viaTypePtr then some s!"subtype-PTR-silenced-by-a-known-answer-for-the-type-PTR rec={hexOfBytes h.name}/{h.ty} t={x.t}"
         else some s!"record-not-answered-although-not-listed-as-known rec={hexOfBytes h.name}/{h.ty} qtype={q.ty} t={x.t}"
